@@ -26,7 +26,8 @@ def universe():
     # same name as species, different label
     t_sp2 = data.Term(name=t_sp.name, label="Species (alt label)", definition=t_sp.definition)
     # same label as call_type, different name
-    t_ct2 = data.Term(name="custom:call_type", label=t_ct.label, definition="other")
+    # (a term that sets the two fields reachable only through their aliases, as ontology exports do)
+    t_ct2 = data.Term(name="custom:call_type", label=t_ct.label, definition="other", type="class", range="xsd:string", scope_note="n")
     # values that are different strings but look alike: precomposed vs combining accent (NFC / NFD), other case
     A, A_nfd, a_low = "Cr\u00f3talo", "Cro\u0301talo", "cr\u00f3talo"
     U = [
